@@ -175,16 +175,43 @@ Example modulo_float_sign :
   modulo_f (FDec 75 (-1)) (FInt (-2)) = Ok (FDec (-5) (-1)).
 Proof. vm_compute. repeat split. Qed.
 
-(** ... but a zero or far too small float divisor escapes as
-    decimal.InvalidOperation, which is not a Liquid error (known finding
-    float-modulo-decimal-InvalidOperation; integers are not affected). *)
-Theorem modulo_float_total_refuted :
-  exists a b, modulo_f a b = PyExc DecimalInvalidOperation.
-Proof. exists (FInt 1), (FDec 0 (-1)). vm_compute. reflexivity. Qed.
-
-Theorem modulo_int_total_partial a b :
-  exists r, modulo_f (FInt a) (FInt b) = r /\
-            match r with Ok (FInt _) | LErr LiquidTypeError _ => True | _ => False end.
+(** [modulo] never lets a Python exception escape: a zero (or far too small)
+    float divisor is a LiquidTypeError like an integer zero (fix of C02 in the
+    [math_filter] wrapper).  [PyExc OtherPyError] is the model's marker for
+    operands outside its domain (bool). *)
+Lemma num_arg_outcomes v d :
+  match num_arg v d with
+  | Ok _ | LErr LiquidTypeError _ => True
+  | PyExc k => k = OtherPyError
+  | _ => False
+  end.
 Proof.
-  eexists. split; [reflexivity|]. unfold modulo_f. simpl. destruct (b =? 0); exact I.
+  destruct v; simpl; try exact I; try reflexivity; try (destruct d; exact I).
+  destruct (parse_int s); [exact I|]. destruct (parse_float s) as [[m e]|]; [exact I|].
+  destruct d; exact I.
 Qed.
+
+Theorem modulo_no_python_exception a b :
+  match modulo_f a b with
+  | Ok _ | LErr LiquidTypeError _ => True
+  | PyExc k => k = OtherPyError
+  | _ => False
+  end.
+Proof.
+  unfold modulo_f, math_left, math_right.
+  pose proof (num_arg_outcomes a (Some (NInt 0))) as Ha.
+  destruct (num_arg a (Some (NInt 0))) as [l|c p|k|]; simpl; try exact Ha.
+  pose proof (num_arg_outcomes b (Some (NInt 0))) as Hb.
+  destruct (num_arg b (Some (NInt 0))) as [r|c p|k|]; simpl; try exact Hb.
+  destruct l as [x|m1 e1], r as [y|m2 e2]; simpl.
+  - destruct (y =? 0); exact I.
+  - destruct (dec_rem x 0 m2 e2) as [[m e]| | |]; try exact I.
+    destruct (negb (m =? 0) && negb (Bool.eqb (m <? 0) (m2 <? 0))); exact I.
+  - destruct (dec_rem m1 e1 y 0) as [[m e]| | |]; try exact I.
+    destruct (negb (m =? 0) && negb (Bool.eqb (m <? 0) (y <? 0))); exact I.
+  - destruct (dec_rem m1 e1 m2 e2) as [[m e]| | |]; try exact I.
+    destruct (negb (m =? 0) && negb (Bool.eqb (m <? 0) (m2 <? 0))); exact I.
+Qed.
+
+Example modulo_float_zero : modulo_f (FInt 1) (FDec 0 (-1)) = LErr LiquidTypeError None.
+Proof. vm_compute. reflexivity. Qed.
